@@ -526,15 +526,27 @@ fn run_policy_scenario(run: usize, scn: &Value, out: &mut Out) {
 }
 
 fn random_policy_scenario(rng: &mut impl Rng) -> Value {
-    let n = rng.gen_range(2..=14usize);
+    // files of one to three entries, or (one scenario in three) of four to eight: a file then holds entries on both sides of a
+    // truncation threshold in every proportion
+    let cap = if rng.gen_range(0..3) == 0 { [4usize, 5, 8][rng.gen_range(0..3)] } else { rng.gen_range(1..=3usize) };
+    let n = if cap > 3 { rng.gen_range(8..=22usize) } else { rng.gen_range(2..=14usize) };
     let mut ops = Vec::new();
     for _ in 0..n {
         ops.push(["w", "w", "w", "w", "k", "y", "t1", "t2", "t3"][rng.gen_range(0..9)]);
     }
-    let ts: Vec<u64> = (0..12).map(|_| rng.gen_range(1..=30u64)).collect();
+    // stamps: any order (several shards write one WAL), or mostly rising with a straggler now and then
+    let rising = rng.gen_bool(0.5);
+    let ts: Vec<u64> = if !rising { (0..24).map(|_| rng.gen_range(1..=30u64)).collect() }
+                       else { (0..24u64).map(|i| if rng.gen_range(0..8) == 0 { 28 + i % 3 } else { 1 + i }).collect() };
     let mut th: Vec<u64> = (0..3).map(|_| rng.gen_range(1..=30u64)).collect();
     if rng.gen_bool(0.5) {
         th.sort();
+    }
+    if cap > 3 && rising {
+        // thresholds that leave exactly the last entry (or the last two) of some file still needed
+        // (one threshold per scenario, asked for again and again: the judge only knows the greatest threshold requested so far)
+        let t = if rng.gen_bool(0.5) { cap as u64 - 1 } else { 2 * cap as u64 - 1 };
+        th = vec![t, t, t];
     }
     let nf = [0, 0, 1, 1, 2][rng.gen_range(0..5)];
     let mut faults = Vec::new();
@@ -543,8 +555,8 @@ fn random_policy_scenario(rng: &mut impl Rng) -> Value {
         let kind = ["fail", "torn", "diskfull", "fail"][rng.gen_range(0..4)];
         faults.push(json!([idx, kind]));
     }
-    let policy = ["always", "everysec", "everysec", "no"][rng.gen_range(0..4)];
-    json!({"policy": policy, "cap": rng.gen_range(1..=3), "batch": rng.gen_range(1..=4),
+    let policy = if cap > 3 && rng.gen_bool(0.5) { "always" } else { ["always", "everysec", "everysec", "no"][rng.gen_range(0..4)] };
+    json!({"policy": policy, "cap": cap, "batch": rng.gen_range(1..=4),
            "ops": ops, "ts": ts, "th": th, "faults": faults})
 }
 
